@@ -95,8 +95,8 @@ def run(ctx):
     reps = ctx.pick(8, 40)
     for k in sorted(configs):
         o = configs[k]
-        for fn in ("native", "lambda"):
-            for rep in range(reps):
+        for fn in ("native", "lambda", "lambda-outer"):
+            for rep in range(reps if fn != "lambda-outer" else max(2, reps // 4)):
                 add({"cores": o["cores"], "ni": o["ni"], "fail": sorted(o["fail"]), "fn": fn,
                      "seed": rng.randrange(1 << 30), "perturb": [1, 2, 3, 3, 0, 2, 1, 3][rep % 8],
                      "model": True, "allowed": sorted(allowed[k])})
@@ -113,7 +113,8 @@ def run(ctx):
             fail = [rng.randint(1, ni)]
         else:
             fail = sorted(rng.sample(range(1, ni + 1), min(ni, rng.randint(2, 4))))
-        fn = rng.choice(["native", "lambda", "lambda-pure"] if not fail else ["native", "lambda"])
+        fn = rng.choice(["native", "lambda", "lambda-pure", "lambda-outer", "lambda-lazy"] if not fail
+                        else ["native", "lambda", "lambda-outer"])
         add({"cores": cores, "ni": ni, "fail": fail, "fn": fn, "seed": rng.randrange(1 << 30),
              "perturb": rng.choice([0, 1, 2, 3]) if ni < 100 else rng.choice([0, 1, 2]), "model": False})
     ctx.sample({k: v for k, v in cases[nmodel // 2].items()})
